@@ -73,12 +73,20 @@ ViewMatches(m, o) ==
   /\ (o.withStore => \A j \in 1 .. Len(m.store) : StoreMatches(m.store[j], o.store[j]))
   /\ \A j \in 1 .. Len(m.logs) : m.logs[j] = o.logs[j]
 
+\* the HTTP layer (server/server.go): the status code that answers a request, from the reply of the runner
+HttpCode(op, res, err) ==
+  IF op = "schedule" THEN (IF res = "ok" THEN 202 ELSE IF err = "shutdown" THEN 503 ELSE 400)
+  ELSE IF op = "cancel" THEN (IF res = "ok" THEN 200 ELSE IF err = "notfound" THEN 404 ELSE 500)
+  ELSE 0
+
 LineMatches(i) ==
   LET e == Lines[i] IN
   IF e.dbg THEN PrintT(<<"MODELVIEW", ToJson(ConfView(obs)), last.res, last.err, last.new>>)    \* (debugging aid: show what the model has here)
   ELSE /\ ViewMatches(ConfView(obs), e.view)
        \* (the passing of time has no reply)
        /\ (e.skip \/ e.op \in {"tick", "longadv"} \/ (last.res = e.res /\ last.err = e.err /\ last.new = e.new))
+       \* a request that went through the HTTP handler was answered with the status code of the HTTP layer
+       /\ ((~e.skip /\ e.via = "http") => e.http = HttpCode(last.op, last.res, last.err))
 
 IsLastOfScript(i) == i = Len(Lines) \/ Lines[i + 1].k = "reset"
 
